@@ -82,6 +82,10 @@ pub enum DatumSpec {
     /// RecM { m: {<k1>: 1, <input>.a: 2, <k2>: 3,}, }: a map literal whose keys are bound at
     /// different stages (two arguments and a datum field) and may coincide
     MapLit(String, Q, Q),
+    /// a catalogue of datum shapes over language features the other shapes do not use: nested records,
+    /// an alias type, a variant with a unit and a struct case, a list of records, a map keyed by
+    /// bytes, booleans (and `!`), text in a Bytes field, `concat` of bytes, `0 - q`
+    Misc { shape: u8, q: Q, bytes: Option<String>, flag: Option<String> },
 }
 
 #[derive(Clone, Debug)]
@@ -178,6 +182,8 @@ pub struct Program {
     pub has_recm: bool,
     /// declares `type Act { A0, ..., A9 }`
     pub has_act: bool,
+    /// declares the types of the `Misc` datum catalogue
+    pub has_misc: bool,
     pub env: Vec<(String, Ty)>,
     pub txs: Vec<TxSpec>,
     /// order in which the top-level sections are written (0: the usual order)
@@ -301,6 +307,9 @@ impl Program {
         }
         if self.has_recm {
             s.push_str("\ntype RecM {\n    m: Map<Int, Int>,\n}\n");
+        }
+        if self.has_misc {
+            s.push_str("\ntype Alias0 = Int;\n\ntype Inner {\n    x: Alias0,\n    y: Bytes,\n}\n\ntype Var3 {\n    Plain,\n    Named {\n        p: Int,\n        fq: Bool,\n    },\n}\n\ntype Outer {\n    n: Int,\n    inner: Inner,\n    v: Var3,\n    items: List<Inner>,\n    tags: Map<Bytes, Int>,\n    flag: Bool,\n    s: Bytes,\n}\n");
         }
         if self.has_act {
             s.push_str("\ntype Act {\n");
@@ -452,6 +461,20 @@ impl Program {
                     i,
                     pq(k2)
                 )),
+                Some(DatumSpec::Misc { shape, q, bytes, flag }) => {
+                    let bs = bytes.clone().unwrap_or_else(|| "0x01".to_string());
+                    let fl = flag.clone().unwrap_or_else(|| "true".to_string());
+                    let text = match shape {
+                        0 => format!(
+                            "Outer {{ n: 0 - {q}, inner: Inner {{ x: {q} + 1, y: concat({bs}, 0xAB), }}, v: Var3::Named {{ p: {q}, fq: {fl}, }}, items: [Inner {{ x: 1, y: 0x01, }}, Inner {{ x: {q}, y: {bs}, }},], tags: {{0xAA: 1, {bs}: {q},}}, flag: !{fl}, s: \"text\", }}",
+                            q = pq(q)
+                        ),
+                        1 => "Var3::Plain {}".to_string(),
+                        2 => format!("Var3::Named {{ p: {}, fq: {fl}, }}", pq(q)),
+                        _ => format!("Inner {{ x: 0 - {}, y: concat({bs}, 0xAB), }}", pq(q)),
+                    };
+                    s.push_str(&format!("        datum: {},\n", text));
+                }
                 Some(DatumSpec::Whole(i, sub, q)) => s.push_str(&format!(
                     "        datum: {} {} {},\n",
                     i,
@@ -1180,6 +1203,25 @@ fn gen_datum(t: &mut Tape, cfg: &GenCfg, p: &mut Program, tx: &TxSpec, params: &
                 Some(DatumSpec::Index(i, q))
             }
         }
+    } else if t.chance(1, 4) {
+        p.has_misc = true;
+        let shape = t.draw(4) as u8;
+        let q = small_q(t, params, "x");
+        let bytes = if t.chance(1, 2) {
+            let name = format!("db{}", params.len());
+            params.push((name.clone(), Ty::Bytes));
+            Some(name)
+        } else {
+            None
+        };
+        let flag = if t.chance(1, 2) {
+            let name = format!("fl{}", params.len());
+            params.push((name.clone(), Ty::Bool));
+            Some(name)
+        } else {
+            None
+        };
+        Some(DatumSpec::Misc { shape, q, bytes, flag })
     } else {
         p.has_rec = true;
         Some(DatumSpec::Rec(small_q(t, params, "x")))
